@@ -11,6 +11,8 @@ import (
 	"sort"
 	"strconv"
 	"sync"
+	"time"
+	_ "time/tzdata"
 )
 
 type Driver func(*Ctx) error
@@ -176,6 +178,29 @@ func (c *Ctx) ReusedInput(site string, in []byte, run func([]byte) string, desc 
 			map[string]interface{}{"input": desc})
 	}
 }
+
+// Zones returns the instant t in several Locations: as given, UTC, two fixed offsets and three daylight-saving zones (from the
+// tz database embedded in the binary). A conversion of an INSTANT gives the same result for all of them.
+func Zones(t time.Time) []time.Time {
+	zonesOnce.Do(func() {
+		zoneList = []*time.Location{time.UTC, time.FixedZone("+0530", 5*3600+1800), time.FixedZone("-0500", -5*3600)}
+		for _, n := range []string{"Europe/Paris", "America/New_York", "Australia/Lord_Howe"} {
+			if l, err := time.LoadLocation(n); err == nil {
+				zoneList = append(zoneList, l)
+			}
+		}
+	})
+	out := []time.Time{t}
+	for _, l := range zoneList {
+		out = append(out, t.In(l))
+	}
+	return out
+}
+
+var (
+	zonesOnce sync.Once
+	zoneList  []*time.Location
+)
 
 // Cuts returns a few strict prefixes lengths of an n-byte encoding (n-1, n/2, 1, 0 without repeats): inputs that announce the
 // same lengths as the full encoding but end early. A decoder is fed these -- which it must reject or survive -- immediately
